@@ -11,6 +11,7 @@ Script items
     ('df', bytes)     same, and the call's deadline passes right after the
                       read (the virtual clock jumps past it): exercises the
                       `timeout < 0` branch of expect_loop
+    ('s', text)       a read returning this already-decoded text as is
     ('t',)            nothing arrives within the current call's deadline:
                       read_nonblocking raises TIMEOUT (item consumed)
     ('e',)            end of stream: EOF, sticky
@@ -108,6 +109,14 @@ class ScriptedSpawn(SpawnBase):
                 self.clock.now += timeout
             self.raised.append('TIMEOUT')
             raise TIMEOUT('Timeout exceeded. scripted.')
+        if kind == 's':
+            # a chunk that is already decoded text (replay of what another transport delivered)
+            s = item[1]
+            if self.clock is not None:
+                self.clock.now += 1e-6
+            self._log(s, 'read')
+            self.delivered.append(s)
+            return s
         data = item[1]
         if size is not None and size >= 0 and len(data) > size:
             rest = data[size:]
